@@ -39,8 +39,11 @@ type streamSess struct {
 	h      *hold
 }
 
-func (e *Exec) openStream(ctx context.Context, real string) (*streamSess, error) {
+func (e *Exec) openStream(ctx context.Context, real string, fcb int) (*streamSess, error) {
 	InstallHook()
+	if fcb <= 0 {
+		fcb = 1 << 30
+	}
 	e.nstream++
 	actor := fmt.Sprintf("%s-stream-%d", e.actor, e.nstream)
 	h := newHold()
@@ -58,7 +61,7 @@ func (e *Exec) openStream(ctx context.Context, real string) (*streamSess, error)
 	}
 	s := &streamSess{t0: e.W.NowTU(), cancel: cancel, stream: stream, msgs: make(chan *pubsubpb.ReceivedMessage, 4096), errc: make(chan error, 1), actor: actor, h: h}
 	if err := stream.Send(&pubsubpb.StreamingPullRequest{Subscription: real, StreamAckDeadlineSeconds: 10,
-		MaxOutstandingMessages: 1000, MaxOutstandingBytes: 1 << 30}); err != nil {
+		MaxOutstandingMessages: 1000, MaxOutstandingBytes: int64(fcb)}); err != nil {
 		s.close()
 		return nil, err
 	}
@@ -105,12 +108,12 @@ func (s *streamSess) quiet(gap, max time.Duration) ([]*pubsubpb.ReceivedMessage,
 
 // openAndDrain opens a stream and records what its sender hands out as a Pull event. ok = false:
 // the stream was refused (recorded as a failed Pull), the operation is over.
-func (e *Exec) openAndDrain(ctx context.Context, sub, real string) (s *streamSess, ok bool, err error) {
+func (e *Exec) openAndDrain(ctx context.Context, sub, real string, fcb int) (s *streamSess, ok bool, err error) {
 	if _, err := e.W.Project(context.Background()); err != nil {
 		return nil, false, err
 	}
 	t0 := e.W.NowTU()
-	s, oerr := e.openStream(ctx, real)
+	s, oerr := e.openStream(ctx, real, fcb)
 	var got []*pubsubpb.ReceivedMessage
 	if oerr == nil {
 		got, oerr = s.quiet(90*time.Millisecond, 2*time.Second)
@@ -146,7 +149,7 @@ func (s *streamSess) readerTx(req *pubsubpb.StreamingPullRequest) (error, error)
 
 func (e *Exec) doStreamAN(ctx context.Context, st Step) error {
 	real := e.RealName("subscriptions", st.Sub)
-	s, ok, err := e.openAndDrain(ctx, st.Sub, real)
+	s, ok, err := e.openAndDrain(ctx, st.Sub, real, st.Fcb)
 	if err != nil || !ok {
 		return err
 	}
@@ -211,7 +214,7 @@ func (e *Exec) doStreamAN(ctx context.Context, st Step) error {
 				return fmt.Errorf("stream fault loop did not terminate")
 			}
 			if s == nil {
-				if s, ok, err = e.openAndDrain(ctx, st.Sub, real); err != nil || !ok {
+				if s, ok, err = e.openAndDrain(ctx, st.Sub, real, st.Fcb); err != nil || !ok {
 					return err
 				}
 			}
@@ -254,7 +257,7 @@ func (e *Exec) doStreamAN(ctx context.Context, st Step) error {
 					select {
 					case serr = <-s.errc:
 						s.errc <- serr
-					case <-time.After(700 * time.Millisecond):
+					case <-time.After(4 * time.Second):
 					}
 				}
 			}
@@ -315,9 +318,26 @@ func (e *Exec) finishStream(s *streamSess, sub, real string) error {
 	// the event's interval starts when the stream was opened: that is when this "pull" refreshed
 	// the subscription's expiry (the clauses that use t0 as a lower bound only get weaker)
 	t0 := s.t0
+	pre, err := e.W.Project(context.Background())
+	if err != nil {
+		s.close()
+		return err
+	}
 	s.h.set(false)
 	got, _ := s.quiet(90*time.Millisecond, 2*time.Second)
 	s.close()
 	time.Sleep(20 * time.Millisecond)
+	if len(got) == 0 {
+		// with messages outstanding on the stream a byte budget may legitimately keep everything
+		// back (C11): nothing was handed out and nothing retired = nothing happened
+		post, err := e.W.Project(context.Background())
+		if err != nil {
+			return err
+		}
+		if !retiredBetween(pre, post) {
+			// (the fetch may still have refreshed the subscription's expiry: a pull that ended empty-handed)
+			return e.emit(map[string]any{"op": "PullTimeout", "sub": sub, "t0": t0, "t1": e.W.NowTU(), "code": "DeadlineExceeded", "via": "stream"})
+		}
+	}
 	return e.emitPull(sub, real, 1000, &pubsubpb.PullResponse{ReceivedMessages: got}, nil, t0, e.W.NowTU())
 }
